@@ -519,7 +519,8 @@ def LinePost (cfg : Cfg) (s : St) (acc : Bytes) (p : Res Bytes × St) : Prop :=
       rest cfg p.2 = (rest cfg s).drop (takeLine (rest cfg s)).length ∧
       p.2.bytesRead = s.bytesRead + (takeLine (rest cfg s)).length ∧
       (Enough cfg s → cfg.length.isSome = true → s.done = false → p.2.done = !hasLF (rest cfg s)) ∧
-      (over cfg s.bytesRead = false → over cfg p.2.bytesRead = false))
+      (over cfg s.bytesRead = false → over cfg p.2.bytesRead = false) ∧
+      (Enough cfg s → cfg.length.isSome = true → rest cfg s = [] → p.2.done = true))
 
 theorem readlineLoop_post (cfg : Cfg) (hb : 1 ≤ cfg.bufsize) (chunk : Nat) (hc : 1 ≤ chunk) :
     ∀ fuel s acc, Inv cfg s → (rest cfg s).length < fuel →
@@ -560,12 +561,16 @@ theorem readlineLoop_post (cfg : Cfg) (hb : 1 ≤ cfg.bufsize) (chunk : Nat) (hc
         intro x hx
         simp only [Res.ok.injEq] at hx
         subst hx
-        refine ⟨by simp [hR, takeLine], ?_, by simp [hR, takeLine, e3, hd0], ?_, e5⟩
+        refine ⟨by simp [hR, takeLine], ?_, by simp [hR, takeLine, e3, hd0], ?_, e5, ?_⟩
         · rw [e2, hR]; simp
         · intro he hl hd
           rw [e4 he hl, hR, hd]
           have := (wzero he hl).mpr hR
           simp [this, hasLF]
+        · intro he hl _
+          rw [e4 he hl]
+          have := (wzero he hl).mpr hR
+          simp [this]
       · simp only [hde, Bool.false_eq_true, if_false]
         have hdne : data ≠ [] := by simpa using hde
         have hwpos : 0 < w := by
@@ -595,7 +600,10 @@ theorem readlineLoop_post (cfg : Cfg) (hb : 1 ≤ cfg.bufsize) (chunk : Nat) (hc
             simp only [Res.ok.injEq] at hx
             subst hx
             rw [hline]
-            refine ⟨rfl, ?_, ?_, ?_, fun hs => over_mono cfg _ _ (e5 hs) (by simp)⟩
+            have hRne : rest cfg s ≠ [] := by
+              rw [hsplit]; intro h; exact hdne (List.append_eq_nil_iff.mp h).1
+            refine ⟨rfl, ?_, ?_, ?_, fun hs => over_mono cfg _ _ (e5 hs) (by simp),
+              fun _ _ h => absurd h hRne⟩
             · rw [hrest', hsplit]
               conv => rhs; rw [d1, List.append_assoc]
               simp
@@ -619,10 +627,13 @@ theorem readlineLoop_post (cfg : Cfg) (hb : 1 ≤ cfg.bufsize) (chunk : Nat) (hc
             · left; exact h
             · right; rw [← f1]; exact h
           · intro x hx
-            obtain ⟨k1, k2, k3, k4, k5⟩ := j7 x hx
+            obtain ⟨k1, k2, k3, k4, k5, _⟩ := j7 x hx
+            have hRne : rest cfg s ≠ [] := by
+              rw [hsplit]; intro h; exact hdne (List.append_eq_nil_iff.mp h).1
             have hline : takeLine (rest cfg s) = data ++ takeLine (rest cfg s1) := by
               rw [hsplit, takeLine_append_noLF _ _ n1]
-            refine ⟨by rw [k1, hline, List.append_assoc], ?_, ?_, ?_, fun hs => k5 (e5 hs)⟩
+            refine ⟨by rw [k1, hline, List.append_assoc], ?_, ?_, ?_, fun hs => k5 (e5 hs),
+              fun _ _ h => absurd h hRne⟩
             · rw [k2, hline]
               conv => rhs; rw [hsplit]
               simp
@@ -688,7 +699,7 @@ theorem readlinesLoop_post (cfg : Cfg) (hb : 1 ≤ cfg.bufsize) (hint' hint : Op
     | fuel => exact absurd rfl nf1
     | err413 => exact ⟨i1, f1, t1, by simp, en1, fun _ => er1 rfl, by simp⟩
     | ok line =>
-      obtain ⟨e1, e2, e3, _, e5⟩ := ok1 line rfl
+      obtain ⟨e1, e2, e3, _, e5, _⟩ := ok1 line rfl
       simp only [List.nil_append] at e1
       simp only
       have hle := takeLine_length_le (rest cfg s)
